@@ -2008,22 +2008,18 @@ func (r stack) traverse(indices ...int) (slice any, ok, done bool) {
 			return
 		}
 
-		// begin "walking" path of int breadcrumbs ...
-		for i := 0; i < len(indices); i++ {
+		// begin "walking" path of int breadcrumbs: only the first index
+		// applies to the receiver; any remaining indices are consumed by
+		// recursion into the slice found there, never by its siblings.
+		current := indices[0] // user-facing index number w/ offset
 
-			current := indices[i] // user-facing index number w/ offset
+		if instance, _, found := r.index(current); found {
 
-			if instance, _, found := r.index(current); found {
-
-				// Begin assertion of possible traversable and non-traversable
-				// values. We'll go as deep as possible, provided each nesting
-				// instance is a Stack/Stack alias, or Condition/Condition alias
-				// containing a Stack/Stack alias value.
-				if slice, ok, done = r.traverseAssertionHandler(instance, i, indices...); !done {
-					continue
-				}
-			}
-			break
+			// Begin assertion of possible traversable and non-traversable
+			// values. We'll go as deep as possible, provided each nesting
+			// instance is a Stack/Stack alias, or Condition/Condition alias
+			// containing a Stack/Stack alias value.
+			slice, ok, done = r.traverseAssertionHandler(instance, 0, indices...)
 		}
 	}
 
